@@ -28,122 +28,147 @@ func originSet(p *core.Prog, v ssa.Value, depth int) map[ssa.Value]bool {
 func RuleDRecursion(c *core.Ctx) {
 	const rule = "D-recursion"
 	p := c.P
-	n := 0
-	for _, g := range p.SrcFuncs() {
-		if g.Parent() != nil {
-			continue
-		}
-		// path parameter: a string parameter that names a file the function reads
-		// (directly or through a helper)
-		pathParam := fileReadParam(p, g, 0)
-		if pathParam < 0 {
-			continue
-		}
-		reach := p.ReachLexical(g)
-		// recursive sites: calls to g from functions reachable from g
-		for f := range reach {
-			if !p.InModule(f) {
+	li := loaderCycle(c)
+	if len(li.readers) == 0 {
+		// no function that reads a file named by a parameter can reach itself:
+		// nothing recurses on input-derived paths
+		c.Ob(rule, "module:no recursive file loader", 0, "", core.Discharged, "no function of lib/syntax that reads a file named by a parameter lies on a call cycle")
+		c.Floor(rule, 1)
+		return
+	}
+	sites := li.growthSites(p)
+	skip := map[ssa.Instruction]bool{}
+	for _, site := range sites {
+		fn, ins := site.caller, site.call
+		key := fmt.Sprintf("%s:recursive call from %s", core.FuncName(li.readers[0]), core.FuncName(fn))
+		newPath := site.pathArg
+		newPathOrigin := originSet(p, newPath, 1)
+		var verdicts []string
+		ok2 := false
+		for ci, prm := range site.callee.Params {
+			if !li.carries(p, prm, "chain", 0) || ci >= len(ins.Common().Args) {
 				continue
 			}
-			core.EachInstr(f, func(ins ssa.Instruction) {
-				call, ok := ins.(ssa.CallInstruction)
-				if !ok || call.Common().StaticCallee() != g {
-					return
+			chainArg := ins.Common().Args[ci]
+			chainOrigin := originSet(p, chainArg, 1)
+			// (a) grows: the chain argument is built by append from the activation's own
+			// chain and its own path
+			grows := false
+			var ownChain *ssa.Parameter
+			for v := range chainOrigin {
+				cl, ok := v.(*ssa.Call)
+				if !ok {
+					continue
 				}
-				// a call to g from g's own reach: is g reachable from f's call? yes (static)
-				n++
-				key := fmt.Sprintf("%s:recursive call from %s", core.FuncName(g), core.FuncName(f))
-				newPath := call.Common().Args[pathParam]
-				if _, isConst := newPath.(*ssa.Const); isConst {
-					c.Ob(rule, key, ins.Pos(), core.FuncName(f), core.Discharged, "recursive call on a constant path")
-					return
+				if b, ok := cl.Call.Value.(*ssa.Builtin); !ok || b.Name() != "append" || len(cl.Call.Args) < 2 {
+					continue
 				}
-				newPathOrigin := originSet(p, newPath, 1)
-				// chain parameter of g: slice or map parameter
-				var verdicts []string
-				ok2 := false
-				for ci, prm := range g.Params {
-					switch prm.Type().Underlying().(type) {
-					case *types.Slice, *types.Map:
-					default:
+				var base *ssa.Parameter
+				for x := range originSet(p, cl.Call.Args[0], 1) {
+					if q, ok := x.(*ssa.Parameter); ok && li.carries(p, q, "chain", 0) {
+						base = q
+					}
+				}
+				addsOwnPath := false
+				for x := range originSet(p, cl.Call.Args[1], 1) {
+					if q, ok := x.(*ssa.Parameter); ok && li.carries(p, q, "path", 0) {
+						addsOwnPath = true
+					}
+				}
+				if base != nil && (addsOwnPath || intersects(originSet(p, cl.Call.Args[1], 1), newPathOrigin)) {
+					grows, ownChain = true, base
+				}
+			}
+			if !grows {
+				verdicts = append(verdicts, fmt.Sprintf("parameter %s is passed on but is not extended with the current path", prm.Name()))
+				continue
+			}
+			// (b) guarded: an If in the caller (or an enclosing function) whose condition
+			// depends on both the new path and the chain, one branch of which cannot
+			// reach the call
+			guarded := false
+			for f := fn; f != nil && !guarded; f = f.Parent() {
+				for _, b := range f.Blocks {
+					iff, isIf := b.Instrs[len(b.Instrs)-1].(*ssa.If)
+					if !isIf {
 						continue
 					}
-					if ci >= len(call.Common().Args) {
+					co := originSet(p, iff.Cond, 2)
+					dependsChain := co[ownChain] || intersectsNonConst(co, chainOrigin)
+					dependsPath := intersectsNonConst(co, newPathOrigin)
+					if !dependsChain || !dependsPath {
 						continue
 					}
-					chainArg := call.Common().Args[ci]
-					chainOrigin := originSet(p, chainArg, 1)
-					// (a) grows: the chain argument is built by append/insert from g's chain parameter and a path
-					grows := false
-					for v := range chainOrigin {
-						if cl, ok := v.(*ssa.Call); ok {
-							if b, ok := cl.Call.Value.(*ssa.Builtin); ok && b.Name() == "append" {
-								o0 := originSet(p, cl.Call.Args[0], 1)
-								if o0[prm] && len(cl.Call.Args) > 1 {
-									o1 := originSet(p, cl.Call.Args[1], 1)
-									if o1[g.Params[pathParam]] || intersects(o1, newPathOrigin) {
-										grows = true
-									}
-								}
-							}
+					if !readsElementOf(p, co, chainOrigin, ownChain) || dependsOnCycleCall(co, li) {
+						continue
+					}
+					if f == fn {
+						r0 := b.Succs[0] == ins.Block() || core.BlockReaches(b.Succs[0], ins.Block(), nil)
+						r1 := b.Succs[1] == ins.Block() || core.BlockReaches(b.Succs[1], ins.Block(), nil)
+						if r0 != r1 {
+							guarded = true
 						}
+					} else {
+						guarded = true // the closure itself is created under the test
 					}
-					if !grows {
-						verdicts = append(verdicts, fmt.Sprintf("parameter %s is passed on but is not extended with the current path", prm.Name()))
+				}
+			}
+			if guarded {
+				ok2 = true
+				verdicts = []string{fmt.Sprintf("the recursive call passes %s extended by the current path and is control-dependent on a test between the new path and that chain", prm.Name())}
+				break
+			}
+			verdicts = append(verdicts, fmt.Sprintf("parameter %s grows along the recursion but no test between it and the new path guards the call", prm.Name()))
+		}
+		if ok2 {
+			skip[ins] = true
+			c.Ob(rule, key, ins.Pos(), core.FuncName(fn), core.Discharged, verdicts[0])
+			continue
+		}
+		detail := "the loader reads the file named by a parameter and is re-entered with a path derived from that file's contents; no ancestor/visited structure bounds the recursion, so a file that includes itself (directly or through others) spawns parses until the process dies"
+		for _, v := range verdicts {
+			detail += "; " + v
+		}
+		c.Ob(rule, key, ins.Pos(), core.FuncName(fn), core.Violated, detail)
+	}
+	// every cycle through a reader passes a guarded site
+	for _, r := range li.readers {
+		key := core.FuncName(r) + ":every cycle passes a guarded call"
+		reach := p.ReachLexicalAvoiding(skip, r)
+		again := ""
+		for f := range reach {
+			n := p.CG.Nodes[f]
+			if n == nil {
+				continue
+			}
+			for _, e := range n.Out {
+				if e.Callee.Func == r && !(e.Site != nil && skip[e.Site]) && (f != r || e.Site != nil) {
+					if f == r && e.Site == nil {
 						continue
 					}
-					// (b) guarded: an If in f (or an enclosing function) whose condition depends on
-					// both the new path and the chain, one branch of which cannot reach the call
-					guarded := false
-					for fn := f; fn != nil && !guarded; fn = fn.Parent() {
-						for _, b := range fn.Blocks {
-							iff, isIf := b.Instrs[len(b.Instrs)-1].(*ssa.If)
-							if !isIf {
-								continue
-							}
-							co := originSet(p, iff.Cond, 2)
-							dependsChain := co[prm] || intersectsNonConst(co, chainOrigin)
-							dependsPath := intersectsNonConst(co, newPathOrigin)
-							if !dependsChain || !dependsPath {
-								continue
-							}
-							// the test must compare an element (or key) read from the chain, and
-							// must not be computed from the result of the recursion itself
-							if !readsElementOf(p, co, chainOrigin, prm) || dependsOnCallTo(co, g) {
-								continue
-							}
-							if fn == f {
-								r0 := b.Succs[0] == ins.Block() || core.BlockReaches(b.Succs[0], ins.Block(), nil)
-								r1 := b.Succs[1] == ins.Block() || core.BlockReaches(b.Succs[1], ins.Block(), nil)
-								if r0 != r1 {
-									guarded = true
-								}
-							} else {
-								guarded = true // the closure itself is created under the test
-							}
-						}
-					}
-					if guarded {
-						ok2 = true
-						verdicts = []string{fmt.Sprintf("the recursive call passes %s extended by the current path and is control-dependent on a test between the new path and that chain", prm.Name())}
-						break
-					}
-					verdicts = append(verdicts, fmt.Sprintf("parameter %s grows along the recursion but no test between it and the new path guards the call", prm.Name()))
+					// the initial, non-recursive entry is not reachable from r itself
+					again = core.FuncName(f)
 				}
-				if ok2 {
-					c.Ob(rule, key, ins.Pos(), core.FuncName(f), core.Discharged, verdicts[0], p.CallPath([]*ssa.Function{g}, f)...)
-					return
-				}
-				detail := "the function reads the file named by parameter " + g.Params[pathParam].Name() +
-					" and is re-entered with a path derived from that file's contents; no ancestor/visited structure bounds the recursion, so a file that includes itself (directly or through others) spawns parses until the process dies"
-				for _, v := range verdicts {
-					detail += "; " + v
-				}
-				c.Ob(rule, key, ins.Pos(), core.FuncName(f), core.Violated, detail, p.CallPath([]*ssa.Function{g}, f)...)
-			})
+			}
+		}
+		if len(sites) == 0 {
+			c.Ob(rule, key, r.Pos(), core.FuncName(r), core.Violated, "the loader lies on a call cycle but no call computes a new path from the parsed file: the shape of the recursion is not known to this rule")
+		} else if again != "" {
+			c.Ob(rule, key, r.Pos(), core.FuncName(r), core.Violated, "with the guarded calls removed, "+core.FuncName(r)+" can still reach itself (through "+again+"): some path of the recursion is not bounded by the ancestor test")
+		} else {
+			c.Ob(rule, key, r.Pos(), core.FuncName(r), core.Discharged, "with the guarded calls removed the loader cannot reach itself")
 		}
 	}
 	c.Floor(rule, 1)
+}
+
+func dependsOnCycleCall(co map[ssa.Value]bool, li *loaderInfo) bool {
+	for v := range co {
+		if c, ok := v.(*ssa.Call); ok && li.cycle[c.Call.StaticCallee()] {
+			return true
+		}
+	}
+	return false
 }
 
 // readsElementOf: the slice co contains an element or key read (index, lookup,
